@@ -390,6 +390,12 @@ func c07Scenarios() []c07Scenario {
 		{name: "versioned-put-put-listver", kinds: []drv.Kind{drv.Mem}, versioned: true,
 			threads: [][]cOp{{{Kind: "put", Key: "k", Body: "A"}}, {{Kind: "put", Key: "k", Body: "BB"}}, {{Kind: "listver"}}},
 			final:   []cOp{{Kind: "listver"}, {Kind: "get", Key: "k"}}},
+		{name: "versioned-delete-put-get", kinds: []drv.Kind{drv.Mem}, versioned: true, setupOps: []cOp{{Kind: "put", Key: "k", Body: "A"}},
+			threads: [][]cOp{{{Kind: "delete", Key: "k"}}, {{Kind: "put", Key: "k", Body: "BB"}}, {{Kind: "get", Key: "k"}}},
+			final:   []cOp{{Kind: "get", Key: "k"}, {Kind: "list"}}},
+		{name: "complete-put-get", kinds: []drv.Kind{drv.Mem, drv.MultiMem}, upload: true, setupOps: []cOp{{Kind: "part", N: 1, Body: "a"}},
+			threads: [][]cOp{{{Kind: "complete", Parts: []model.CPart{{N: 1, ETag: eA}}}}, {{Kind: "put", Key: "k", Body: "PP"}}, {{Kind: "get", Key: "k"}}},
+			final:   []cOp{{Kind: "get", Key: "k"}, {Kind: "listparts"}}},
 		{name: "part-part-complete", kinds: []drv.Kind{drv.Mem, drv.MultiMem}, upload: true, setupOps: []cOp{{Kind: "part", N: 1, Body: "z"}},
 			threads: [][]cOp{{{Kind: "part", N: 1, Body: "a"}}, {{Kind: "part", N: 1, Body: "bb"}}, {{Kind: "complete", Parts: []model.CPart{{N: 1, ETag: eA}}}}},
 			final:   []cOp{{Kind: "get", Key: "k"}, {Kind: "listparts"}}},
